@@ -16,9 +16,77 @@ fn valid(case: &Case) -> bool {
     }
 }
 
+static ISO_BUDGET_MS: std::sync::atomic::AtomicU64 = std::sync::atomic::AtomicU64::new(240_000);
+pub static ISO_DIR: std::sync::Mutex<Option<String>> = std::sync::Mutex::new(None);
+
+/// Crash and hang verdicts cannot be re-evaluated in this process: run the candidate in a
+/// child (`bumpsim exec`) and look at how it ends. Bounded by a wall-clock budget.
+fn reproduces_isolated(case: &Case, sig: &str) -> bool {
+    use std::sync::atomic::Ordering;
+    let hang = sig.ends_with("worker-hang");
+    if ISO_BUDGET_MS.load(Ordering::Relaxed) == 0 {
+        return false;
+    }
+    let dir = ISO_DIR.lock().unwrap().clone().unwrap_or_else(|| ".".to_string());
+    let path = format!("{}/min-candidate-{}.json", dir, std::process::id());
+    let prop = sig.split('/').next().unwrap_or("C01").to_string();
+    let cf = CaseFile {
+        property: prop,
+        signature: sig.to_string(),
+        profile: "any".into(),
+        what_fails: String::new(),
+        case: case.clone(),
+        found_by: serde_json::Value::Null,
+    };
+    if std::fs::write(&path, serde_json::to_string(&cf).unwrap()).is_err() {
+        return false;
+    }
+    let exe = match std::env::current_exe() {
+        Ok(e) => e,
+        Err(_) => return false,
+    };
+    let t0 = std::time::Instant::now();
+    let mut child = match std::process::Command::new(exe)
+        .arg("exec")
+        .arg(&path)
+        .stdout(std::process::Stdio::null())
+        .stderr(std::process::Stdio::null())
+        .spawn()
+    {
+        Ok(c) => c,
+        Err(_) => return false,
+    };
+    let limit = std::time::Duration::from_secs(if hang { 8 } else { 30 });
+    let verdict = loop {
+        match child.try_wait() {
+            Ok(Some(st)) => {
+                let code = st.code();
+                break if hang { false } else { !(code == Some(0) || code == Some(1)) };
+            }
+            Ok(None) => {
+                if t0.elapsed() > limit {
+                    let _ = child.kill();
+                    let _ = child.wait();
+                    break hang;
+                }
+                std::thread::sleep(std::time::Duration::from_millis(5));
+            }
+            Err(_) => break false,
+        }
+    };
+    let _ = std::fs::remove_file(&path);
+    let spent = t0.elapsed().as_millis() as u64;
+    let left = ISO_BUDGET_MS.load(Ordering::Relaxed);
+    ISO_BUDGET_MS.store(left.saturating_sub(spent.max(1)), Ordering::Relaxed);
+    verdict
+}
+
 fn reproduces(case: &Case, sig: &str, ctx: &Ctx) -> bool {
     if !valid(case) {
         return false;
+    }
+    if sig.ends_with("worker-abort") || sig.ends_with("worker-hang") {
+        return reproduces_isolated(case, sig);
     }
     let res = run_case(case, ctx);
     res.violations.iter().any(|v| v.sig == sig)
